@@ -84,7 +84,8 @@ def ob_swap(n_swap=None):
                 nf = nf + zif(is_f, 1, 0)
                 cl += [(amt >= 1, 'no zero swap', 'swap:nonzero'),
                        (z3.And(len(m['funds']) == 1, m['funds'][0][1] == amt) if m['funds'] else False, 'offered coin is attached as funds', 'swap:funds'),
-                       (S.struct_eq(st, m['contract'], W.swap), 'swap goes to the configured swap contract', 'swap:target')]
+                       (S.struct_eq(st, m['contract'], W.swap), 'swap goes to the configured swap contract', 'swap:target'),
+                       (isinstance(sm.fields[2], Agg) and sm.fields[2].vname == 'None', 'the proceeds of every swap requested here come back to the dispatcher (no other recipient), so that the split and the keeper fee apply to them', 'swap:recipient')]
             held_ok = zand(off['s'] <= W.bal_s, off['b'] <= W.bal_b + got_f)
             if general:
                 held_ok = zand(held_ok, off['f'] <= W.bal_o)
@@ -293,6 +294,11 @@ def ORACLE(v, scn, out):
             for d_, a_, f_, _ in coins:
                 if f_ != [{'denom': d_, 'amount': str(a_)}]:
                     bad.append('funds %r for offer %s%s' % (f_, a_, d_))
+        elif what == 'recipient':
+            for sm in msgs:
+                to = sm['msg']['wasm']['execute']['msg']['swap_denom'].get('to_address')
+                if to is not None:
+                    bad.append('swap proceeds are sent to %s instead of coming back to the dispatcher' % to)
         elif what == 'target':
             if any(t_ != 'swap_contract' for _, _, _, t_ in coins):
                 bad.append('swap sent to %r' % [t_ for _, _, _, t_ in coins])
